@@ -10,6 +10,7 @@ import (
 	"reflect"
 	"sort"
 	"strings"
+	"sync"
 
 	hc "verifharness/common"
 
@@ -24,7 +25,7 @@ import (
 //   part 2: every VT value is encoded repeatedly (Go map iteration order differs between iterations): identical bytes,
 //           keys ascending at every level; a digest of all outputs is compared across fresh processes by the driver.
 
-var rankBytes = map[int]string{1: "B", 2: "a", 3: "b", 4: "é"}
+var rankBytes = map[int]string{0: "1", 1: "B", 2: "a", 3: "b", 4: "é"}
 
 func keyOf(ranks []any) string {
 	var sb strings.Builder
@@ -314,6 +315,8 @@ func runC09(permsFile, rowsFile string, seed int64, b *hc.Builder) {
 			}
 		}
 	}
+	c09History(stats)
+	c09Concurrent(stats)
 	keys := []string{}
 	for k := range vcount {
 		keys = append(keys, k)
@@ -339,4 +342,153 @@ func restliUnescape(s string) (string, error) {
 		}
 	}
 	return sb.String(), nil
+}
+
+// ---- part 3: "output does not depend on earlier use of the library".  The same maps are encoded before and after
+// histories of serializations that FAIL part-way (after one or more entries were already written, at the top level and
+// nested): the bytes must not change.
+func c09History(stats map[string]int) {
+	type mk struct {
+		name string
+		w    func() restlicodec.Writer
+	}
+	writers := []mk{{"json", restlicodec.NewCompactJsonWriter}, {"pretty", restlicodec.NewPrettyJsonWriter}, {"header", restlicodec.NewRor2HeaderWriter},
+		{"path", func() restlicodec.Writer { return restlicodec.NewRor2PathWriter() }}, {"query", restlicodec.NewRestLiQueryParamsWriter}}
+	good := func(w restlicodec.Writer) (string, error) {
+		err := w.WriteMap(func(kw func(string) restlicodec.Writer) error {
+			kw("age").WriteInt32(30)
+			kw("name").WriteString("n (x)")
+			return kw("nested").WriteMap(func(kw2 func(string) restlicodec.Writer) error {
+				kw2("k").WriteArray(func(iw func() restlicodec.Writer) error {
+					iw().WriteString("i")
+					iw().WriteInt64(7)
+					return nil
+				})
+				kw2("z").WriteBool(true)
+				return nil
+			})
+		})
+		return w.Finalize(), err
+	}
+	boom := fmt.Errorf("failing on purpose")
+	failing := []func(w restlicodec.Writer) error{
+		func(w restlicodec.Writer) error { // after one entry
+			return w.WriteMap(func(kw func(string) restlicodec.Writer) error {
+				kw("leftover").WriteString("text of an unrelated, failed request")
+				return boom
+			})
+		},
+		func(w restlicodec.Writer) error { // after several entries, inside a nested map
+			return w.WriteMap(func(kw func(string) restlicodec.Writer) error {
+				kw("a").WriteInt32(1)
+				kw("b").WriteString("stale")
+				return kw("c").WriteMap(func(kw2 func(string) restlicodec.Writer) error {
+					kw2("d").WriteString("stale-nested")
+					return boom
+				})
+			})
+		},
+		func(w restlicodec.Writer) error { // inside an array item
+			return w.WriteArray(func(iw func() restlicodec.Writer) error {
+				iw().WriteString("stale-item")
+				return iw().WriteMap(func(kw func(string) restlicodec.Writer) error {
+					kw("x").WriteString("stale")
+					return boom
+				})
+			})
+		},
+	}
+	for _, m := range writers {
+		base, err := good(m.w())
+		if err != nil {
+			violation("C09/history/"+m.name+"/baseline-error", err.Error(), nil)
+			continue
+		}
+		for round := 0; round < 200; round++ {
+			for _, f := range failing {
+				if err := f(m.w()); err == nil {
+					violation("C09/history/"+m.name+"/failure-swallowed", "a serialization whose callback failed reported success", nil)
+				}
+			}
+			after, err := good(m.w())
+			stats["history_encodings"]++
+			if err != nil || after != base {
+				violation("C09/history/"+m.name+"/output-depends-on-earlier-failed-call", fmt.Sprintf("the same value encoded %s before and %s after failed serializations (err %v)", clip(base), clip(after), err),
+					map[string]any{"writer": m.name, "before": base, "after": after, "round": round})
+				break
+			}
+		}
+	}
+}
+
+// ---- part 4: requests are reproducible under concurrency: the same parameters encoded from 8 goroutines at once give the
+// bytes a single goroutine gives.
+func c09Concurrent(stats map[string]int) {
+	type job struct {
+		name string
+		run  func(i int) (string, error)
+	}
+	jobs := []job{
+		{"queryparams", func(i int) (string, error) {
+			return restlicodec.BuildQueryParams(func(kw func(string) restlicodec.Writer) error {
+				kw("q").WriteString(fmt.Sprintf("search (%d) a&b=c d+e", i))
+				kw("ids").WriteArray(func(iw func() restlicodec.Writer) error {
+					iw().WriteString(fmt.Sprintf("k,%d", i))
+					iw().WriteString("é/" + fmt.Sprint(i))
+					return nil
+				})
+				return nil
+			})
+		}},
+		{"batchids", func(i int) (string, error) {
+			set := batchkeyset.NewBatchKeySet[string]()
+			for _, k := range []string{fmt.Sprintf("b (%d)", i), fmt.Sprintf("a,%d", i), "c&d=" + fmt.Sprint(i)} {
+				if err := set.AddKey(k); err != nil {
+					return "", err
+				}
+			}
+			return set.EncodeQueryParams()
+		}},
+	}
+	const n, workers = 400, 8
+	for _, j := range jobs {
+		want := make([]string, n)
+		for i := 0; i < n; i++ {
+			want[i], _ = j.run(i)
+		}
+		var wg sync.WaitGroup
+		var mu sync.Mutex
+		bad := ""
+		for g := 0; g < workers; g++ {
+			wg.Add(1)
+			go func() {
+				defer wg.Done()
+				defer func() {
+					if r := recover(); r != nil {
+						mu.Lock()
+						bad = fmt.Sprintf("panic: %v", r)
+						mu.Unlock()
+					}
+				}()
+				for rep := 0; rep < 5; rep++ {
+					for i := 0; i < n; i++ {
+						got, err := j.run(i)
+						if err != nil || got != want[i] {
+							mu.Lock()
+							if bad == "" {
+								bad = fmt.Sprintf("encoding %d gave %q (err %v), a single goroutine gives %q", i, got, err, want[i])
+							}
+							mu.Unlock()
+							return
+						}
+					}
+				}
+			}()
+		}
+		wg.Wait()
+		stats["concurrent_encodings"] += n * workers * 5
+		if bad != "" {
+			violation("C09/concurrent/"+j.name, "encoding from several goroutines at once: "+bad, map[string]any{"job": j.name})
+		}
+	}
 }
